@@ -1154,17 +1154,25 @@ def extra_c13(seed, tier, log):
         if ta.get("error") is not None or ta.get("crashed") or tb.get("crashed"):
             continue
         lam = par if kind == "scale" else 1.0
-        # the ledgers are rounded to a quantum fixed by the model's unit; it is not scale-free, so the
-        # comparison allows for it relative to the smallest damage at stake
+        # the ledgers are rounded to a quantum fixed by the model's unit (not scale-free): each cell of each
+        # ledger is rounded once per step, by at most half a quantum, and the error stays in the book.  The
+        # two runs may therefore differ by A = cells x steps x quantum / 2 (model units of the unscaled run)
+        # in anything monetary, and by A / (smallest output per step) in ratios.
         mu = s["model"]["monetary_factor"]
         quantum = 10.0 ** (-(int(math.log10(mu)) + 1))
-        dmin = min([v * (e.get("emf") or 1) / mu for e in s["events"] if e["type"] in ("rebuild", "recovery")
-                    for _, v in e["impact"]] or [1.0])
-        # one rounding (half a quantum) per ledger cell and step; the scaled run sees damages lam times larger
         nst = max(1, s["sim"]["n"] // max(1, int(s["model"]["dt"])))
-        slack = (nst + 20) * quantum / max(dmin * min(1.0, lam), 1e-300)
-        if slack > 1e-3:
-            continue        # damages comparable to the rounding quantum: nothing can be concluded
+        Nn = len(s["table"]["row_labels"])
+        Ff = len(s["table"]["ycol_labels"])
+        nR_ = len(s["table"]["regions"])
+        cells = 0
+        for e in s["events"]:
+            if e["type"] == "rebuild":       # cells of the two demand books that are not identically zero
+                cells += nR_ * len(e["rebuilding_sectors"]) * (len(e["impact"]) + len(e.get("households") or []))
+            elif e["type"] == "recovery":
+                cells += len(e["impact"]) + len(e.get("households") or [])
+        A = cells * nst * quantum / 2
+        xs_tab = [v for v in (s["table"].get("x") or []) if v > 0]
+        xmin = (min(xs_tab) if xs_tab else 1.0) * s["model"]["dt"] / s["model"].get("year_factor", 365)
         for name, x in (ta.get("records") or {}).items():
             y = (tb.get("records") or {}).get(name)
             if x is None or y is None or name in ("limiting_inputs", "inputs_stocks"):
@@ -1172,6 +1180,9 @@ def extra_c13(seed, tier, log):
             f = lam if name in MON else 1.0
             xs, ys = np.nan_to_num(x.astype(float)) * f, np.nan_to_num(y.astype(float))
             m = float(max(np.abs(xs).max(), np.abs(ys).max())) if xs.size else 0.0
+            slack_abs = A * lam if name in MON else A / xmin
+            if slack_abs > 1e-2 * max(m, 1e-300):
+                continue        # the rounding of the books is comparable to the record itself: nothing can be concluded
             floor = m * 1e-2
             if name == "final_demand_unmet":
                 # a difference of two nearly equal quantities (demand - deliveries): its rounding-level
@@ -1179,8 +1190,10 @@ def extra_c13(seed, tier, log):
                 fd = (tb.get("records") or {}).get("final_demand")
                 if fd is not None:
                     floor = max(floor, float(np.nanmax(np.abs(fd.astype(float)))))
-            tol = (1e-6 if kind == "scale" else 1e-7) + slack
-            if not np.all(np.abs(xs - ys) <= tol * np.maximum(np.maximum(np.abs(xs), np.abs(ys)), floor)):
+            tol = 1e-6 if kind == "scale" else 1e-7
+            # (the books' deviation feeds back into demand, production and the next deliveries: a factor 4
+            # over the one-way bound covers the feedback observed)
+            if not np.all(np.abs(xs - ys) <= tol * np.maximum(np.maximum(np.abs(xs), np.abs(ys)), floor) + 4 * slack_abs):
                 idx = np.unravel_index(int(np.argmax(np.abs(xs - ys))), xs.shape)
                 what = (f"the same event expressed with monetary factor {par} gives a different simulation"
                         if kind == "unit" else f"scaling table and impacts by {par} does not scale the results")
